@@ -33,5 +33,8 @@ func c16(c *Ctx) {
 	// demuxers of the process, so every byte of it that the parsers read must have been written by THIS call — the
 	// concatenation copies every payload of the group, in order, completely (R8 of C02); a skipped payload leaves the bytes of
 	// whoever used the pool item before
-	demuxrules.New(c.P, r).AssembledPayload()
+	da := demuxrules.New(c.P, r)
+	da.AssembledPayload()
+	// "packets returned are never modified by later calls": a Packet is written only by the function that allocates it (I9)
+	da.PacketsNotMutated()
 }
